@@ -148,14 +148,25 @@ def _worker(args):
     t0 = time.time()
     try:
         res = mod.run_shard(shard)
-    except Exception:
-        res = {
-            "evals": 0,
-            "nontrivial": 0,
-            "failures": [],
-            "samples": [],
-            "harness_error": traceback.format_exc(),
-        }
+    except Exception as e:  # noqa: BLE001
+        frames = traceback.extract_tb(e.__traceback__)
+        lib = os.path.join(REPO, "speckit") + os.sep
+        if frames and frames[-1].filename.startswith(lib):
+            # the exception was raised by the library itself while the check was exercising it with admissible input:
+            # that is an observation about the code under test, not a failure of the harness
+            where = f"{os.path.basename(frames[-1].filename)}:{frames[-1].lineno} in {frames[-1].name}"
+            res = {"evals": 1, "nontrivial": 0, "samples": [],
+                   "failures": [fail(f"library-raised/{type(e).__name__}/{frames[-1].name}",
+                                     f"the library raised {type(e).__name__}: {e} at {where} while shard {json.dumps(jsonable(shard))[:300]} was being checked",
+                                     shard if isinstance(shard, dict) else {"shard": shard})]}
+        else:
+            res = {
+                "evals": 0,
+                "nontrivial": 0,
+                "failures": [],
+                "samples": [],
+                "harness_error": traceback.format_exc(),
+            }
     res.setdefault("extra", {})
     res["wall"] = time.time() - t0
     res["shard"] = shard
